@@ -267,12 +267,18 @@ def normalize(model):
     notes = []
     _ENUMERATORS.clear()
     _ENUMERATORS.update(model.enumerators)
+    ngo = forward_gotos_to_blocks(model)
+    if ngo:
+        notes.append("%d common-exit goto(s) rewritten as if / else" % ngo)
     ntd, lowered_tables = lower_table_dispatch(model)
     if ntd:
         notes.append("%d call(s) through a constant function table lowered to if / else-if chains" % ntd)
     nsw = lower_switches(model)
     if nsw:
         notes.append("%d switch statement(s) lowered to if / else-if chains" % nsw)
+    npc = pointer_cursors_to_indexes(model)
+    if npc:
+        notes.append("%d function(s) with pointer cursors into one array rewritten with index cursors" % npc)
     nic = index_cursor_reads(model)
     if nic:
         notes.append("%d read cursor(s) (*p++ sequences) rewritten as subscripts of the initial pointer" % nic)
@@ -305,7 +311,7 @@ def normalize(model):
         rel = model.rel(f.file) or ""
         if not rel.startswith(("src/", "include/")):
             continue
-        if any(x["kind"] == "VarDecl" and x.get("storageClass") == "static" for x in walk(f.body)):
+        if any(x["kind"] == "VarDecl" and x.get("storageClass") == "static" and not _readonly_table(x) for x in walk(f.body)):
             continue
         if _has_return_in_loop(f.body):
             notes.append("helper %s not inlined: return inside a loop or switch" % f.name)
@@ -385,6 +391,67 @@ def normalize(model):
     return notes
 
 
+def _readonly_table(vd):
+    """A local (possibly static) array of const elements with a brace initialiser free of calls: a constant table."""
+    t = vd.get("type") or ""
+    if not re.search(r"const\s*\[\d+\]$", t.strip()):
+        return False
+    init = kids(vd)
+    if not init or strip(init[0], casts=True)["kind"] != "InitListExpr":
+        return False
+    return all(_pure_expr(e) for e in kids(strip(init[0], casts=True)))
+
+
+def resolve_const_subscripts(f):
+    """T[k] for a constant local table T (const elements, brace initialiser whose elements mention only variables that are
+    never assigned) and an index that is a literal or a const local with a literal initialiser: the element itself."""
+    if f.body is None:
+        return 0
+    assigned = _assigned_ids(f.body)
+    consts, tables = {}, {}
+    for x in walk(f.body):
+        if x["kind"] != "VarDecl" or x.get("id") in assigned:
+            continue
+        t = (x.get("type") or "").strip()
+        if _readonly_table(x):
+            els = kids(strip(kids(x)[0], casts=True))
+            refs = {y["ref"].get("id") for e in els for y in walk(e) if y["kind"] == "DeclRefExpr" and
+                    y.get("ref", {}).get("kind") in ("VarDecl", "ParmVarDecl")}
+            if not (refs & assigned):
+                tables[x["id"]] = els
+        elif kids(x) and (t.startswith("const ") or t.endswith("const")) and "*" not in t and "[" not in t:
+            v = _const_value(kids(x)[0])
+            i0 = strip(kids(x)[0], casts=True)
+            if v is None and i0["kind"] == "DeclRefExpr":
+                v = consts.get(i0.get("ref", {}).get("id"))        # a const copy of a const local (declared earlier)
+            if v is not None:
+                consts[x["id"]] = v
+    if not tables:
+        return 0
+    n = 0
+    for x in walk(f.body):
+        ch = x.get("inner")
+        if not ch:
+            continue
+        for i, c in enumerate(ch):
+            if c["kind"] != "ArraySubscriptExpr":
+                continue
+            b = strip(kids(c)[0], casts=True)
+            if b["kind"] != "DeclRefExpr" or b.get("ref", {}).get("id") not in tables:
+                continue
+            ix = strip(kids(c)[1], casts=True)
+            k = _const_value(ix)
+            if k is None and ix["kind"] == "DeclRefExpr":
+                k = consts.get(ix.get("ref", {}).get("id"))
+            els = tables[b["ref"]["id"]]
+            if k is None or not (0 <= k < len(els)):
+                continue
+            ch[i] = _mk("ParenExpr", [copy.deepcopy(els[k])], type=c.get("type"), file=c.get("file"), line=c.get("line"),
+                        col=c.get("col"))
+            n += 1
+    return n
+
+
 def _cleanup_touched(model, touched):
     for k in touched:
         f = model.funcs.get(k)
@@ -392,6 +459,7 @@ def _cleanup_touched(model, touched):
             continue
         fold_pointer_null_tests(f)
         drop_dead_initialisers(f)
+        resolve_const_subscripts(f)
         eliminate_out_pointers(f)
         for _ in range(4):
             if not thread_flags(f):
@@ -406,6 +474,8 @@ def _cleanup_touched(model, touched):
             if not fuse_repeated_tests(f):
                 break
         if fold_pointer_null_tests(f):
+            propagate_copies(f)
+        if resolve_const_subscripts(f):
             propagate_copies(f)
         restore_loop_conditions(f)
     model._callgraph = None
@@ -680,6 +750,26 @@ def _inline_site(f, call, g):
                 _pure_expr(kids(core)[0]):
             host = s0
     if host is None:
+        # T v = outer(a, helper(b), c);  return outer(helper(b), c);  - the other arguments and the callee free of side
+        # effects: evaluating the helper first changes nothing
+        e = None
+        if s0["kind"] == "DeclStmt" and len(kids(s0)) == 1 and kids(kids(s0)[0]):
+            e = kids(kids(s0)[0])[0]
+        elif s0["kind"] == "ReturnStmt" and kids(s0):
+            e = kids(s0)[0]
+        elif s0["kind"] == "BinaryOperator" and s0.get("opcode") == "=":
+            lhs = strip(kids(s0)[0], casts=True)
+            if lhs["kind"] == "DeclRefExpr":
+                e = kids(s0)[1]
+        outer = _first_evaluated_call(e) if e is not None else None
+        if outer is not None and outer is not call:
+            args = kids(outer)[1:]
+            mine = [a_ for a_ in args if any(x is call for x in walk(a_))]
+            others = [a_ for a_ in args if a_ not in mine]
+            if len(mine) == 1 and _first_evaluated_call(mine[0]) is call and all(_pure_expr(a_) for a_ in others) and \
+                    _pure_expr(kids(outer)[0]):
+                host = s0
+    if host is None:
         return False
     inst = _instantiate(g, call, True)
     if inst is None:
@@ -865,6 +955,14 @@ def lower_table_dispatch(model):
             e0 = strip(e, casts=True)
             while e0["kind"] == "UnaryOperator" and e0.get("opcode") == "*":
                 e0 = strip(kids(e0)[0], casts=True)
+            if e0["kind"] == "ConditionalOperator":
+                # (in range) ? T[i] : NULL - the entry where there is one (a call through NULL does not happen)
+                from .astutil import is_null_expr as _isnull
+                a_, b_ = kids(e0)[1], kids(e0)[2]
+                live = [z for z in (a_, b_) if not _isnull(z)]
+                if len(live) == 1:
+                    return table_subscript(live[0])
+                return None
             if e0["kind"] == "ArraySubscriptExpr":
                 b = strip(kids(e0)[0], casts=True)
                 if b["kind"] == "DeclRefExpr" and b.get("ref", {}).get("id") in tables:
@@ -983,6 +1081,7 @@ def lower_table_dispatch(model):
                             if vd["kind"] == "VarDecl" and vd.get("id") == it["ref"]["id"] and kids(vd):
                                 ity = strip(kids(vd)[0], casts=True).get("type") or ity
                     enum_names = None
+                    ity = ity.replace("const ", "").replace("volatile ", "").strip()
                     if ity.startswith("enum "):
                         enum_names = model.enums.get(ity[5:].strip())
                     arms = []
@@ -1010,12 +1109,33 @@ def lower_table_dispatch(model):
                     if tail is None:
                         continue
                     ch[i] = tail
+                    tail["lowered_from_holder"] = cal["ref"]["id"] if cal["kind"] == "DeclRefExpr" else None
                     handled_nodes.add(id(sub))
                     n_low += 1
                     changed = True
                     break
                 if changed:
                     break
+        # `if (h != NULL) <chain>` around a lowered call through holder h: the chain has an arm exactly for the entries that
+        # are not NULL, so the test adds nothing
+        for x in walk(f.body):
+            ch = x.get("inner") or []
+            for i, c in enumerate(ch):
+                if c["kind"] == "IfStmt" and len(kids(c)) == 2:
+                    cnd = strip(kids(c)[0], casts=True)
+                    hid = None
+                    if cnd["kind"] == "BinaryOperator" and cnd.get("opcode") == "!=":
+                        from .astutil import is_null_expr as _isn
+                        for u_, v_ in ((kids(cnd)[0], kids(cnd)[1]), (kids(cnd)[1], kids(cnd)[0])):
+                            u0 = strip(u_, casts=True)
+                            if u0["kind"] == "DeclRefExpr" and u0["ref"].get("id") in held and _isn(v_):
+                                hid = u0["ref"]["id"]
+                    elif cnd["kind"] == "DeclRefExpr" and cnd["ref"].get("id") in held:
+                        hid = cnd["ref"]["id"]
+                    th = kids(c)[1]
+                    body_ = [b_ for b_ in (kids(th) if th["kind"] == "CompoundStmt" else [th]) if b_["kind"] != "NullStmt"]
+                    if hid is not None and len(body_) == 1 and body_[0].get("lowered_from_holder") == hid:
+                        ch[i] = body_[0]
         # any remaining evaluated reference to a table (outside sizeof, outside the initialiser of a local we resolved)
         def scan(n, in_sizeof):
             if n["kind"] == "UnaryExprOrTypeTraitExpr":
@@ -1332,6 +1452,54 @@ def index_cursor_reads(model):
                         holder["inner"][j] = _mk("ArraySubscriptExpr", [base, idx], type=deref.get("type"), file=deref.get("file"),
                                                  line=deref.get("line"), col=deref.get("col"))
                     n += 1
+    return n
+
+
+def forward_gotos_to_blocks(model):
+    """A function with one label, placed as a statement of a block, and gotos that only appear as `if (c) goto L;` /
+    `if (c) { A; goto L; }` statements of that same block in front of the label (the common-exit idiom):
+    `if (c) { A; goto L; } X; L: R`  becomes  `if (c) { A } else { X }  R`."""
+    n = 0
+    for f in model.funcs.values():
+        rel = model.rel(f.file) or ""
+        if not rel.startswith(("src/", "include/")) or f.body is None:
+            continue
+        labels = [x for x in walk(f.body) if x["kind"] == "LabelStmt"]
+        gotos = [x for x in walk(f.body) if x["kind"] == "GotoStmt"]
+        if len(labels) != 1 or not gotos:
+            continue
+        lab = labels[0]
+        blk = None
+        for b in walk(f.body):
+            if b["kind"] == "CompoundStmt" and any(c is lab for c in kids(b)):
+                blk = b
+        if blk is None:
+            continue
+        st = list(kids(blk))
+        j = [i for i, c in enumerate(st) if c is lab][0]
+
+        def ends_in_goto(br):
+            body = list(kids(br)) if br["kind"] == "CompoundStmt" else [br]
+            return bool(body) and body[-1]["kind"] == "GotoStmt" and not any(y["kind"] == "GotoStmt" for b_ in body[:-1] for y in walk(b_))
+        # every goto must be the tail of the then-branch of an else-less if that is a statement of this block before the label
+        sites = [i for i in range(j) if st[i]["kind"] == "IfStmt" and len(kids(st[i])) == 2 and ends_in_goto(kids(st[i])[1])]
+        covered = sum(1 for i in sites for y in walk(st[i]) if y["kind"] == "GotoStmt")
+        if covered != len(gotos):
+            continue
+        rest_after = st[j + 1:]
+        tail = list(st[:j])
+        for i in reversed(sites):
+            s_ = tail[i]
+            br = kids(s_)[1]
+            body = (list(kids(br)) if br["kind"] == "CompoundStmt" else [br])[:-1]
+            els = tail[i + 1:]
+            new_if = _mk("IfStmt", [kids(s_)[0], _mk("CompoundStmt", body, file=s_.get("file"), line=s_.get("line"))] +
+                         ([_mk("CompoundStmt", els, file=s_.get("file"), line=s_.get("line"))] if els else []),
+                         file=s_.get("file"), line=s_.get("line"), col=s_.get("col"))
+            tail = tail[:i] + [new_if]
+        inner = list(kids(lab))
+        blk["inner"] = tail + inner + rest_after
+        n += 1
     return n
 
 
@@ -2292,3 +2460,354 @@ def unroll_const_loops(body, max_rounds=16):
                             and ix is not None and 0 <= ix < len(arrays[b0["ref"]["id"]]):
                         ch[i_] = copy.deepcopy(arrays[b0["ref"]["id"]][ix])
     return body
+
+
+# ---------------------------------------------------------------------------------------------------------------
+def _is_ptr_type(t):
+    t = (t or "").strip()
+    return t.endswith("*") or bool(re.search(r"\*\s*const$", t))
+
+
+def pointer_cursors_to_indexes(model):
+    """Local pointers that only ever hold `B + e`, `&B[e]` or another such pointer (plus / minus an integer), for one
+    pointer B that is never reassigned, walk the array B: each becomes an integer index, `*p` / `p->f` / `p - B` / `p < q`
+    become `B[p_ix]` / `B[p_ix].f` / `p_ix` / `p_ix < q_ix`, and a pointer value that is passed on becomes `&B[p_ix]`
+    (the rules and engines read subscripts)."""
+    n = 0
+    for f in list(model.funcs.values()):
+        rel = model.rel(f.file) or ""
+        if not rel.startswith(("src/", "include/")) or f.body is None:
+            continue
+        n += _cursor_pass(f)
+    return n
+
+
+def _cursor_pass(f):
+    body = f.body
+    parent = {}
+    for x in walk(body):
+        for i, c in enumerate(x.get("inner") or []):
+            parent[id(c)] = (x, i)
+    decls = {x["id"]: x for x in walk(body) if x["kind"] == "VarDecl" and x.get("id")}
+    ptr_vars = {vid for vid, d in decls.items() if _is_ptr_type(d.get("type")) and d.get("storageClass") != "static"}
+    for p in f.params:
+        if _is_ptr_type(p.get("type")):
+            ptr_vars.add(p["id"])
+    if not ptr_vars:
+        return 0
+
+    def ancestor(n):
+        p = parent.get(id(n))
+        while p and p[0]["kind"] in ("ParenExpr", "ImplicitCastExpr"):
+            n = p[0]
+            p = parent.get(id(n))
+        return (p[0] if p else None), n
+
+    defs = {}           # vid -> [(kind, node)]
+    addr = set()
+    for x in walk(body):
+        if x["kind"] != "DeclRefExpr" or x.get("ref", {}).get("id") not in ptr_vars:
+            continue
+        vid = x["ref"]["id"]
+        a, ch = ancestor(x)
+        if a is None:
+            continue
+        if a["kind"] == "UnaryOperator" and a.get("opcode") == "&":
+            addr.add(vid)
+        elif a["kind"] == "UnaryOperator" and a.get("opcode") in ("++", "--"):
+            defs.setdefault(vid, []).append(("step", a))
+        elif a["kind"] == "CompoundAssignOperator" and kids(a)[0] is ch:
+            defs.setdefault(vid, []).append(("compound", a))
+        elif a["kind"] == "BinaryOperator" and a.get("opcode") == "=" and kids(a)[0] is ch:
+            defs.setdefault(vid, []).append(("assign", a))
+    bases = {vid for vid in ptr_vars if vid not in defs and vid not in addr}
+    cursors = {}        # vid -> base id
+
+    def ref_id(e):
+        e0 = strip(e)
+        if e0["kind"] == "DeclRefExpr":
+            return e0.get("ref", {}).get("id")
+        return None
+
+    def shape(e):
+        """(base id, arithmetic?) of a pointer expression made of cursors / bases, else None"""
+        e0 = strip(e)
+        if e0["kind"] == "DeclRefExpr":
+            vid = e0.get("ref", {}).get("id")
+            if vid in cursors:
+                return cursors[vid], False
+            if vid in bases and vid not in maybe:
+                return vid, False
+            if vid in maybe:
+                return ("?", vid), False
+            return None
+        if e0["kind"] == "BinaryOperator" and e0.get("opcode") in ("+", "-"):
+            l, r = kids(e0)
+            if _is_ptr_type(l.get("type")) and not _is_ptr_type(r.get("type")):
+                s_ = shape(l)
+                return (s_[0], True) if s_ else None
+            if e0.get("opcode") == "+" and _is_ptr_type(r.get("type")) and not _is_ptr_type(l.get("type")):
+                s_ = shape(r)
+                return (s_[0], True) if s_ else None
+            return None
+        if e0["kind"] == "UnaryOperator" and e0.get("opcode") == "&":
+            t = strip(kids(e0)[0])
+            if t["kind"] == "ArraySubscriptExpr":
+                s_ = shape(kids(t)[0])
+                return (s_[0], True) if s_ else None
+        return None
+
+    # candidate cursors: local pointers whose every definition has a shape; resolve the bases to a fixpoint
+    maybe = {vid for vid in ptr_vars if vid in decls and vid not in addr and (kids(decls[vid]) or vid in defs)}
+    # a never-reassigned pointer is a cursor only if its initialiser does arithmetic on another one; else it is a base
+    info = {}
+    for _ in range(6):
+        changed = False
+        for vid in list(maybe):
+            d = decls[vid]
+            shapes = []
+            ok = True
+            arith = False
+            if kids(d):
+                s_ = shape(kids(d)[0])
+                if s_ is None:
+                    ok = False
+                else:
+                    shapes.append(s_)
+            for kind, node in defs.get(vid, []):
+                if kind == "assign":
+                    s_ = shape(kids(node)[1])
+                    if s_ is None:
+                        ok = False
+                    else:
+                        shapes.append(s_)
+                elif kind == "compound":
+                    if node.get("opcode") not in ("+=", "-=") or _is_ptr_type(kids(node)[1].get("type")):
+                        ok = False
+                    arith = True
+                else:
+                    pa = parent.get(id(node))
+                    if pa is None or pa[0]["kind"] not in ("CompoundStmt", "ForStmt"):
+                        ok = False          # the value of p++ is used
+                    arith = True
+            if not ok or not shapes:
+                maybe.discard(vid)
+                changed = True
+                continue
+            info[vid] = (shapes, arith)
+        if not changed:
+            break
+    # union the '?' references: solve bases
+    for _ in range(8):
+        changed = False
+        for vid in list(maybe):
+            shapes, arith = info[vid]
+            bs = set()
+            for b, ar in shapes:
+                if isinstance(b, tuple):
+                    if b[1] in cursors:
+                        bs.add(cursors[b[1]])
+                    elif b[1] not in maybe:
+                        bs.add(None)
+                else:
+                    bs.add(b)
+            bs.discard(vid)
+            if None in bs or len(bs) > 1:
+                maybe.discard(vid)
+                cursors.pop(vid, None)
+                changed = True
+                continue
+            if len(bs) == 1 and vid not in cursors:
+                cursors[vid] = next(iter(bs))
+                changed = True
+        if not changed:
+            break
+    cursors = {v: b for v, b in cursors.items() if v in maybe}
+    # a base must not itself be a cursor; a cursor needs arithmetic somewhere in its family
+    def has_arith(vid, seen=()):
+        shapes, arith = info[vid]
+        if arith or any(ar for _b, ar in shapes):
+            return True
+        for b, _ar in shapes:
+            if isinstance(b, tuple) and b[1] in cursors and b[1] not in seen and has_arith(b[1], seen + (vid,)):
+                return True
+        return False
+    for _ in range(4):
+        drop = {v for v in cursors if cursors[v] in cursors or not has_arith(v)}
+        # a cursor whose definition mentions a dropped candidate
+        for v in cursors:
+            for b, _ar in info[v][0]:
+                if isinstance(b, tuple) and b[1] not in cursors:
+                    drop.add(v)
+        if not drop:
+            break
+        for v in drop:
+            cursors.pop(v, None)
+    if not cursors:
+        return 0
+    for v in cursors:
+        for b, _ar in info[v][0]:
+            if isinstance(b, tuple) and b[1] not in cursors:
+                return 0
+    ITYPE = "int64_t"
+    ixid = {v: "ix:%s" % v for v in cursors}
+
+    def lit(k, like):
+        return _mk("IntegerLiteral", [], value=str(k), type="int", file=like.get("file"), line=like.get("line"), col=like.get("col"))
+
+    def var_ref(vid, like):
+        d = decls.get(vid)
+        if d is None:
+            d = next(p for p in f.params if p["id"] == vid)
+            kind = "ParmVarDecl"
+        else:
+            kind = "VarDecl"
+        r = _mk("DeclRefExpr", [], ref={"id": vid, "kind": kind, "name": d.get("name"), "type": d.get("type")},
+                type=d.get("type"), file=like.get("file"), line=like.get("line"), col=like.get("col"))
+        return _mk("ImplicitCastExpr", [r], castKind="LValueToRValue", type=d.get("type"), file=like.get("file"),
+                   line=like.get("line"), col=like.get("col"))
+
+    def ix_ref(vid, like, rvalue=True):
+        name = "%s_ix" % decls[vid].get("name")
+        r = _mk("DeclRefExpr", [], ref={"id": ixid[vid], "kind": "VarDecl", "name": name, "type": ITYPE}, type=ITYPE, dtype="long",
+                file=like.get("file"), line=like.get("line"), col=like.get("col"))
+        if not rvalue:
+            return r
+        return _mk("ImplicitCastExpr", [r], castKind="LValueToRValue", type=ITYPE, dtype="long", file=like.get("file"),
+                   line=like.get("line"), col=like.get("col"))
+
+    def binop(op, l, r, like, type_=ITYPE):
+        return _mk("BinaryOperator", [l, r], opcode=op, type=type_, file=like.get("file"), line=like.get("line"), col=like.get("col"))
+
+    def is_zero(n):
+        return n["kind"] == "IntegerLiteral" and n.get("value") == "0"
+
+    def as_index(e):
+        """(base, index expression) of a pointer expression over cursors and their bases"""
+        e0 = strip(e)
+        if e0["kind"] == "DeclRefExpr":
+            vid = e0.get("ref", {}).get("id")
+            if vid in cursors:
+                return cursors[vid], ix_ref(vid, e0)
+            if vid in set(cursors.values()):
+                return vid, lit(0, e0)
+            return None
+        if e0["kind"] == "BinaryOperator" and e0.get("opcode") in ("+", "-"):
+            l, r = kids(e0)
+            if _is_ptr_type(l.get("type")) and not _is_ptr_type(r.get("type")):
+                a = as_index(l)
+                if a is None:
+                    return None
+                rr = conv(copy.deepcopy(r))
+                if e0.get("opcode") == "+" and is_zero(a[1]):
+                    return a[0], rr
+                return a[0], binop(e0["opcode"], a[1], _mk("ParenExpr", [rr], type=rr.get("type")), e0)
+            if e0.get("opcode") == "+" and _is_ptr_type(r.get("type")) and not _is_ptr_type(l.get("type")):
+                a = as_index(r)
+                if a is None:
+                    return None
+                ll = conv(copy.deepcopy(l))
+                if is_zero(a[1]):
+                    return a[0], ll
+                return a[0], binop("+", _mk("ParenExpr", [ll], type=ll.get("type")), a[1], e0)
+            return None
+        if e0["kind"] == "UnaryOperator" and e0.get("opcode") == "&":
+            t = strip(kids(e0)[0])
+            if t["kind"] == "ArraySubscriptExpr":
+                a = as_index(kids(t)[0])
+                if a is None:
+                    return None
+                ii = conv(copy.deepcopy(kids(t)[1]))
+                if is_zero(a[1]):
+                    return a[0], ii
+                return a[0], binop("+", a[1], _mk("ParenExpr", [ii], type=ii.get("type")), e0)
+        return None
+
+    def elem_type(bid):
+        d = decls.get(bid) or next(p for p in f.params if p["id"] == bid)
+        t = (d.get("type") or "").strip()
+        t = re.sub(r"\*\s*(const)?$", "", t).strip()
+        return t
+
+    def sub(bid, ix, like):
+        return _mk("ArraySubscriptExpr", [var_ref(bid, like), ix], type=elem_type(bid), file=like.get("file"), line=like.get("line"),
+                   col=like.get("col"))
+
+    count = [0]
+
+    def conv(n):
+        k = n["kind"]
+        ch = n.get("inner")
+        if k == "UnaryOperator" and n.get("opcode") == "*":
+            a = as_index(kids(n)[0])
+            if a is not None:
+                count[0] += 1
+                return sub(a[0], a[1], n)
+        if k == "MemberExpr" and n.get("isArrow"):
+            a = as_index(kids(n)[0])
+            if a is not None:
+                count[0] += 1
+                m2 = dict(n)
+                m2["isArrow"] = False
+                m2["inner"] = [sub(a[0], a[1], n)]
+                return m2
+        if k == "ArraySubscriptExpr":
+            a = as_index(kids(n)[0])
+            if a is not None:
+                count[0] += 1
+                ii = conv(kids(n)[1])
+                ix = ii if is_zero(a[1]) else binop("+", a[1], _mk("ParenExpr", [ii], type=ii.get("type")), n)
+                return sub(a[0], ix, n)
+        if k == "BinaryOperator" and n.get("opcode") in ("-", "<", "<=", ">", ">=", "==", "!="):
+            l, r = kids(n)
+            if _is_ptr_type(l.get("type")) and _is_ptr_type(r.get("type")):
+                a, b = as_index(l), as_index(r)
+                if a is not None and b is not None and a[0] == b[0]:
+                    count[0] += 1
+                    if n["opcode"] == "-" and is_zero(b[1]):
+                        return _mk("ParenExpr", [a[1]], type=n.get("type"), file=n.get("file"), line=n.get("line"), col=n.get("col"))
+                    return binop(n["opcode"], a[1], b[1], n, type_=n.get("type"))
+        if k == "BinaryOperator" and n.get("opcode") == "=" and ref_id(kids(n)[0]) in cursors:
+            vid = ref_id(kids(n)[0])
+            a = as_index(kids(n)[1])
+            count[0] += 1
+            return binop("=", ix_ref(vid, n, rvalue=False), a[1], n)
+        if k == "CompoundAssignOperator" and ref_id(kids(n)[0]) in cursors:
+            vid = ref_id(kids(n)[0])
+            m2 = dict(n)
+            m2["type"] = ITYPE
+            m2["inner"] = [ix_ref(vid, n, rvalue=False), conv(kids(n)[1])]
+            count[0] += 1
+            return m2
+        if k == "UnaryOperator" and n.get("opcode") in ("++", "--") and ref_id(kids(n)[0]) in cursors:
+            vid = ref_id(kids(n)[0])
+            m2 = dict(n)
+            m2["type"] = ITYPE
+            m2["inner"] = [ix_ref(vid, n, rvalue=False)]
+            count[0] += 1
+            return m2
+        if k == "VarDecl" and n.get("id") in cursors:
+            vid = n["id"]
+            m2 = dict(n)
+            m2["id"] = ixid[vid]
+            m2["name"] = "%s_ix" % n.get("name")
+            m2["type"] = ("const " + ITYPE) if re.search(r"\*\s*const$", (n.get("type") or "").strip()) else ITYPE
+            m2["dtype"] = "long"
+            if kids(n):
+                a = as_index(kids(n)[0])
+                m2["inner"] = [a[1]]
+            count[0] += 1
+            return m2
+        if _is_ptr_type(n.get("type")) and k in ("DeclRefExpr", "BinaryOperator", "ImplicitCastExpr", "ParenExpr", "UnaryOperator"):
+            a = as_index(n)
+            if a is not None and not (strip(n)["kind"] == "DeclRefExpr" and ref_id(n) not in cursors):
+                count[0] += 1
+                pt = elem_type(a[0]) + " *"
+                return _mk("UnaryOperator", [sub(a[0], a[1], n)], opcode="&", type=pt, file=n.get("file"), line=n.get("line"),
+                           col=n.get("col"))
+        if ch:
+            n["inner"] = [conv(c) for c in ch]
+        return n
+
+    f.body = conv(body)
+    return 1 if count[0] else 0
